@@ -9,6 +9,7 @@ from ..engine.mutate import Mutant, Variant, in_function, replace_once
 from ..engine.runner import Rule
 from ..engine.source import AnalysisError, Evaluator, FoldError
 from ..engine.sqlfront import all_where_clauses, split_conjuncts
+from . import C14
 from .common import callee_name, calls_in, kwarg
 
 EXPLANATION = (
@@ -297,6 +298,7 @@ def rule_incremental(ctx):
 
 
 RULES = [
+    Rule("R-C17-8", "events for paths that a pattern may match reach the incremental update (same relevance as the rescan)", C14.rule_same_filter, min_instances=5),
     Rule("R-C17-6", "single-component wildcards never consume a separator", rule_component_wildcards, min_instances=5),
     Rule("R-C17-1", "token exhaustiveness", rule_tokens, min_instances=15),
     Rule("R-C17-2", "the two neighbour mergers agree", rule_mergers, min_instances=24),
